@@ -7,6 +7,9 @@
 -/
 import NiftyVerif.Lemmas.HarmonicInstance
 import NiftyVerif.Lemmas.HarmonicVolume
+import NiftyVerif.Lemmas.HarmonicSmooth
+import NiftyVerif.Lemmas.HarmonicCoo
+import NiftyVerif.Lemmas.HarmonicSHT
 
 namespace NiftyVerif.C09
 open NiftyVerif.Harmonic Finset
@@ -276,5 +279,94 @@ example : rgDvol true [(4, 1/2), (2, 3/4)] * rgDvol false [(4, 1/2), (2, 3/4)] *
     intro nd hnd
     simp only [List.mem_cons, List.not_mem_nil, or_false] at hnd
     rcases hnd with rfl | rfl <;> norm_num)
+
+/-- HarmonicSmoothingOperator is the documented convolution: for every even real kernel k (k(-j) = k(j) on the grid)
+    the code's Hartley-based formula H⁻¹ diag(k) H equals F⁻¹ diag(k) F = ifftn(k · fftn(x)), for all axis lengths,
+    both Hartley conventions; and every kernel that is a function of the k-length array of the code
+    (`get_k_length_array`, e.g. the Gaussian exp(-2π²σ²k²)) is even. -/
+theorem smoothing_is_fourier_convolution [IsDomain K] (s : Scal K) (σ : K →+* K) (hs : ScalOK s σ) (g : Grid K)
+    (hg : GridOK g) (hσ : ConjOK σ g) (c : Bool) (dvolD dvolT : K) (hv : dvolT * dvolD * (g.ncells : K) = 1)
+    (hσD : σ dvolD = dvolD) (x : Tensor K) (hx : IsReal σ x) (i : Idx) :
+    (∀ k : Tensor K, IsReal σ k → IsEven g k →
+      smoothApply s g c dvolD dvolT false k x i = ifftn3 g (fun j => k j * fftn3 g x j) i)
+    ∧ (∀ (h1 h2 h3 : Rat) (f : Rat → K), (∀ r, σ (f r) = f r) →
+      smoothApply s g c dvolD dvolT false (fun j => f (kSq g.n1 g.n2 g.n3 h1 h2 h3 j)) x i
+        = ifftn3 g (fun j => f (kSq g.n1 g.n2 g.n3 h1 h2 h3 j) * fftn3 g x j) i) := by
+  refine ⟨fun k hkr hk => smooth_eq_fourier s σ hs g hg hσ c dvolD dvolT hv hσD k hkr hk x hx i, ?_⟩
+  intro h1 h2 h3 f hf
+  exact smooth_eq_fourier s σ hs g hg hσ c dvolD dvolT hv hσD _ (fun j => hf _)
+    (kernel_of_kSq_even g h1 h2 h3 f) x hx i
+
+/-- non-vacuity: ℂ instance with the kernel 1/(1 + k²) of the k-lengths (harmonic distances 1/2, 1, 1) -/
+example (i : Idx) :
+    smoothApply scalC gridC true (1 / 4) (1 / 2) false (fun j => ((1 / (1 + kSq 4 2 1 (1/2) 1 1 j) : ℚ) : ℂ)) xC i
+      = ifftn3 gridC (fun j => ((1 / (1 + kSq 4 2 1 (1/2) 1 1 j) : ℚ) : ℂ) * fftn3 gridC xC j) i :=
+  (smoothing_is_fourier_convolution scalC (starRingEnd ℂ) scalC_ok gridC gridC_ok gridC_conj true (1 / 4) (1 / 2)
+    (by simp [gridC, Grid.ncells]; norm_num) (by simp [map_ofNat]) xC xC_real i).2 (1/2) 1 1
+    (fun r => ((1 / (1 + r) : ℚ) : ℂ)) (fun r => by simp)
+
+/-- sub-space transforms are Kronecker embeddings (connection to C02's `Coo.onAxis`): on a flat row-major array of a
+    product domain with `P` cells before, `Q` cells after the transformed RGSpace (n1×n2×n3), the code's `fftn` over the
+    axes of the space is the composition of `onAxis` of the three 1-D DFT matrices; and for a one-axis space the
+    code's Hartley transform (real input) is `onAxis P Q` of the Hartley matrix. -/
+theorem subspace_transform_onAxis (g : Grid K) (P Q : Nat) (x : Nat → K) (a j1 j2 j3 b : Nat)
+    (ha : a < P) (h1 : j1 < g.n1) (h2 : j2 < g.n2) (h3 : j3 < g.n3) (hb : b < Q) :
+    fftn3 g (flatTensor g.n1 g.n2 g.n3 Q x) ⟨a, j1, j2, j3, b⟩
+      = Coo.apply (Coo.onAxis (P * g.n1 * g.n2) Q (dftCoo g.w3 g.n3))
+          (Coo.apply (Coo.onAxis (P * g.n1) (g.n3 * Q) (dftCoo g.w2 g.n2))
+            (Coo.apply (Coo.onAxis P (g.n2 * g.n3 * Q) (dftCoo g.w1 g.n1)) x))
+          ((((a * g.n1 + j1) * g.n2 + j2) * g.n3 + j3) * Q + b) := by
+  rw [fftn3_eq]
+  exact tr3_onAxis P g.n1 g.n2 g.n3 Q _ _ _ x a j1 j2 j3 b ha h1 h2 h3 hb
+
+theorem subspace_hartley_onAxis (s : Scal K) (σ : K →+* K) (hs : ScalOK s σ) (g : Grid K) (hσ : ConjOK σ g) (c : Bool)
+    (hn2 : g.n2 = 1) (hn3 : g.n3 = 1) (P Q : Nat) (x : Nat → K) (hx : ∀ k, σ (x k) = x k) (a r b : Nat)
+    (ha : a < P) (hr : r < g.n1) (hb : b < Q) :
+    hartley3 s g c (flatTensor g.n1 1 1 Q x) ⟨a, r, 0, 0, b⟩
+      = Coo.apply (Coo.onAxis P Q (hartleyCoo s g.w1 g.wb1 c g.n1)) x ((a * g.n1 + r) * Q + b) := by
+  have hreal : IsReal σ (flatTensor g.n1 1 1 Q x) := fun i => hx _
+  rw [hartley_is_matrix s σ hs g hσ c (flatTensor g.n1 1 1 Q x) hreal ⟨a, r, 0, 0, b⟩ hn2 hn3 ⟨rfl, rfl⟩, sumTo_eq_sum]
+  have := axis1_onAxis P g.n1 1 1 Q (hartleyMat s g.w1 g.wb1 c) x a r 0 0 b ha hr (by decide) (by decide) hb
+  simp only [Nat.mul_one, Nat.add_zero, Nat.one_mul] at this
+  unfold hartleyCoo
+  rw [← this]
+  rfl
+
+/-- non-vacuity: the 4×2×1 grid over ℂ inside a product domain with 3 cells before and 5 after -/
+example (x : Nat → ℂ) :
+    fftn3 gridC (flatTensor 4 2 1 5 x) ⟨2, 3, 1, 0, 4⟩
+      = Coo.apply (Coo.onAxis (3 * 4 * 2) 5 (dftCoo 1 1))
+          (Coo.apply (Coo.onAxis (3 * 4) (1 * 5) (dftCoo (-1) 2))
+            (Coo.apply (Coo.onAxis 3 (2 * 1 * 5) (dftCoo (-Complex.I) 4)) x))
+          ((((2 * 4 + 3) * 2 + 1) * 1 + 0) * 5 + 4) :=
+  subspace_transform_onAxis gridC 3 5 x 2 3 1 0 4 (by decide) (by decide) (by decide) (by decide) (by decide)
+
+/-- SHTOperator: `adjoint_times` (`_slice_p2h`) is the plain transpose of `times` (`_slice_h2p`), for every lmax, mmax,
+    pixelisation and all spherical-harmonic values — it only needs √2 = 2·√½ in the re-packing factors -/
+theorem sht_adjoint (cfg : ShtCfg K) (h2 : cfg.r2 = cfg.rh + cfg.rh) (x y : Nat → K) :
+    ∑ p ∈ range cfg.npix, y p * sliceH2P cfg x p = ∑ idx ∈ range cfg.nreal, sliceP2H cfg y idx * x idx :=
+  sht_adjoint_lemma cfg h2 x y
+
+/-- non-vacuity: lmax = 1, mmax = 1, 4 pixels over ℚ -/
+example (x y : Nat → ℚ) : ∑ p ∈ range 4, y p * sliceH2P shtQ x p = ∑ idx ∈ range 4, sliceP2H shtQ y idx * x idx :=
+  sht_adjoint shtQ (by norm_num [shtQ]) x y
+
+/-- documented normalisation (nifty_cl_volume.rst): with pixel volumes under which the real harmonics are orthonormal,
+    transforming a weighted field forth and back multiplies by c² = 1/(4π); and a unit monopole coefficient
+    synthesises a field of integral 1 (Y_00 = c, total volume V with c²V = 1, i.e. V = 4π) -/
+theorem sht_normalisation (cfg : ShtCfg K) (h2 : cfg.r2 = cfg.rh + cfg.rh) (vol : Nat → K) :
+    ((∀ a b, a < cfg.nreal → b < cfg.nreal →
+        ∑ p ∈ range cfg.npix, vol p * cfg.R a p * cfg.R b p = if b = a then 1 else 0) →
+      ∀ (x : Nat → K) (idx : Nat), idx < cfg.nreal →
+        sliceP2H cfg (fun p => vol p * sliceH2P cfg x p) idx = cfg.c * cfg.c * x idx)
+    ∧ (∀ V : K, 0 < cfg.L → (∀ p, p < cfg.npix → cfg.yre 0 p = cfg.c) → ∑ p ∈ range cfg.npix, vol p = V →
+        cfg.c * cfg.c * V = 1 →
+        ∑ p ∈ range cfg.npix, vol p * sliceH2P cfg (fun idx => if idx = 0 then 1 else 0) p = 1) :=
+  ⟨fun horth x idx hidx => sht_roundtrip_lemma cfg h2 vol horth x idx hidx,
+   fun V hL hY hV hc => sht_monopole_lemma cfg h2 hL vol V hY hV hc⟩
+
+/-- non-vacuity: the ℚ instance satisfies the orthonormality hypothesis (unit volumes) -/
+example (x : Nat → ℚ) : sliceP2H shtQ (fun p => 1 * sliceH2P shtQ x p) 3 = shtQ.c * shtQ.c * x 3 :=
+  (sht_normalisation shtQ (by norm_num [shtQ]) (fun _ => 1)).1 shtQ_orth x 3 (by decide)
 
 end NiftyVerif.C09
